@@ -979,6 +979,7 @@ def r_scope_extrusion(prog: Program, col: Collector, refs: Refs, cat: Catalogue,
                 # (i) an explicit freshness test earlier in the same loop body / enclosing the return
                 fresh = False
                 kind_mismatch = None
+                quant_bad = None
                 for n in walk_no_nested(f.node):
                     if isinstance(n, ast.If) and n.lineno < ret.lineno:
                         # the test with single-definition locals inlined (`sibling_vars = union(...)`; `if v.reduced_vars & sibling_vars`)
@@ -999,6 +1000,28 @@ def r_scope_extrusion(prog: Program, col: Collector, refs: Refs, cat: Catalogue,
                         # names used in the test that are locals derived from the sibling slices
                         exits = any(isinstance(b, (ast.Continue, ast.Return)) for b in n.body)
                         encloses = any(ret is y for b in n.body for y in ast.walk(b))
+                        # the quantifier over the siblings: a skipping guard must fire when SOME sibling mentions a bound variable,
+                        # a guard around the rewrite must require that NO sibling does
+                        if mentions_bound and mentions_inputs and (exits or encloses):
+                            def _quant(t, neg=False):
+                                out = []
+                                if isinstance(t, ast.UnaryOp) and isinstance(t.op, ast.Not):
+                                    return _quant(t.operand, not neg)
+                                if isinstance(t, ast.BoolOp):
+                                    for v_ in t.values:
+                                        out += _quant(v_, neg)
+                                    return out
+                                if isinstance(t, ast.Call) and isinstance(t.func, ast.Name) and t.func.id in ("any", "all") and t.args \
+                                        and isinstance(t.args[0], (ast.GeneratorExp, ast.ListComp)):
+                                    q_ = t.func.id
+                                    if neg:
+                                        q_ = "none" if q_ == "any" else "notall"
+                                    out.append(q_)
+                                return out
+                            qs = _quant(n.test)
+                            if (exits and not encloses and any(q_ in ("all", "none") for q_ in qs)) or (encloses and not exits and any(q_ in ("any", "notall") for q_ in qs)):
+                                quant_bad = n
+                                mentions_inputs = False
                         if mentions_bound and mentions_inputs and (exits or encloses):
                             same_loop = any(isinstance(a, (ast.For, ast.While)) and any(n is y for y in ast.walk(a)) and any(ret is y for y in ast.walk(a)) for a in walk_no_nested(f.node)) \
                                 or not any(isinstance(a, (ast.For, ast.While)) for a in walk_no_nested(f.node))
@@ -1026,6 +1049,10 @@ def r_scope_extrusion(prog: Program, col: Collector, refs: Refs, cat: Catalogue,
                             vac = True
                 if vac:
                     col.ok(construct, f"vacuous: in every case of the enclosing condition `{vname}` binds nothing or has no sibling", f.loc(ret))
+                elif quant_bad is not None:
+                    col.violation(construct, f"the freshness test `{norm(quant_bad.test)[:90]}` quantifies over the siblings the wrong way round: the rewrite is skipped only when "
+                                  "EVERY sibling mentions a bound variable, so with one sibling that does (v * v * z) the binders are still moved over it and capture its variable",
+                                  f.loc(quant_bad))
                 elif kind_mismatch is not None:
                     col.violation(construct, f"the freshness test `{norm(kind_mismatch.test)[:80]}` intersects Variable objects (`reduced_vars`) with input NAMES (`.inputs`): "
                                   "the two never have an element in common, so the test never fires and the binders are moved over siblings that mention them", f.loc(kind_mismatch))
